@@ -151,6 +151,7 @@ def real_run(ctx, pdb, extra):
     orig_setattr = pstruct.Atom.__dict__.get("__setattr__")
     initial = {}
     input_ids = {}
+    orig_key = {}
     state = {"armed": False}
 
     def w_sda(self, residue, anglenum, angle):
@@ -191,6 +192,7 @@ def real_run(ctx, pdb, extra):
             if not a.name.startswith("H"):
                 initial.setdefault(key_of_atom(a), (a.x, a.y, a.z))
                 input_ids[id(a)] = a  # keeps the object alive, so ids stay unique
+                orig_key.setdefault(id(a), key_of_atom(a))
         state["armed"] = True
         return r
 
@@ -212,7 +214,7 @@ def real_run(ctx, pdb, extra):
             del pstruct.Atom.__setattr__
     for f in d.glob("g.*"):
         f.unlink()
-    return {"calls": calls, "writes": writes, "initial": initial, "bio": bio, "err": err}
+    return {"calls": calls, "writes": writes, "initial": initial, "bio": bio, "err": err, "orig_key": orig_key}
 
 
 BACKBONE_CAP = {"N", "CA", "C", "O", "OXT"}
@@ -227,11 +229,14 @@ def geometry_oracle(ctx, pdb, extra, noop, run, definition):
     by_res = {}
     for res in bio.residues:
         for a in res.atoms:
-            if a.name.startswith("H"):
+            # identity of an input atom = the OBJECT read from the input, under the name it was
+            # read with: Carboxylic.rename exchanges the NAMES of the two carboxyl oxygens
+            # (OE1<->OE2, OD1<->OD2, O<->OXT) without moving any atom, and --ffout renames too
+            k = run["orig_key"].get(id(a))
+            if k is None or k in final:
                 continue
-            k = key_of_atom(a)
             final[k] = (a.x, a.y, a.z)
-            by_res.setdefault(k[:3], (res, {}))[1][a.name] = k
+            by_res.setdefault(k[:3], (res, {}))[1][k[3]] = k
     label = f"{pdb} {' '.join(extra)}"
     for k, p0 in run["initial"].items():
         if k not in final:
@@ -278,6 +283,189 @@ def geometry_oracle(ctx, pdb, extra, noop, run, definition):
                 ctx.fail({"site": "pipeline", "condition": f"{kind}-changed", "residue": res.name}, f"{label}: {res} {u}-{v} distance {d0:.5f} -> {d1:.5f} ({kind} among input heavy atoms changed)", {"pdb": pdb, "args": extra, "residue": str(res), "pair": [u, v], "before": d0, "after": d1})
                 break
 
+
+
+# --------------------------------------------------------------------------
+# (D) debump histories driven by oracle answers
+#
+# Debump.debump_residue decides from bump scores which torsion to scan, which
+# angle to keep and when to give up.  Real structures rarely produce a history
+# with several accepted and rejected torsions on one residue, so the geometric
+# decisions are replaced by scripted answers (score_dihedral_angle and
+# find_residue_conflicts are monkeypatched on the Debump OBJECT, nothing in
+# /repo changes) and debump_residue itself runs on real residues.  Whatever the
+# history, the residue's input heavy atoms must end as a composition of rigid
+# side-chain rotations: backbone unmoved, every bond length and bond angle kept.
+
+
+def _walk_fixture():
+    from pdb2pqr import aa, cells, debump
+    from pdb2pqr import io as pio
+    from pdb2pqr import main as pmain
+
+    path = core.REPO / "tests" / "data" / "1AJJ.pdb"
+    definition = pio.get_definitions()
+    pdblist, _ = pio.get_molecule(str(path))
+    bm, definition, _ = pmain.setup_molecule(pdblist, definition, None)
+    bm.set_termini(neutraln=False, neutralc=False)
+    bm.update_bonds()
+    db = debump.Debump(bm)
+    db.cells = cells.Cells(2)
+    db.cells.assign_cells(bm)
+    bm.calculate_dihedral_angles()
+    bm.set_donors_acceptors()
+    bm.update_internal_bonds()
+    bm.set_reference_distance()
+    residues = []
+    for res in bm.residues:
+        if not isinstance(res, aa.Amino):
+            continue
+        side = []
+        for k, dstr in enumerate(res.reference.dihedrals):
+            nm = dstr.split()
+            if all(res.has_atom(x) for x in nm) and res.dihedrals[k] is not None and nm[3] in res.get_moveable_names(nm[2]):
+                side.append(k)
+        if side:
+            residues.append((res, side))
+    return bm, db, residues
+
+
+def _rigid_failures(res, before, after):
+    """Bond lengths and bond angles (as 1-3 distances) among the residue's heavy atoms, and
+    exact positions of backbone/cap atoms. Returns [(condition, detail)]."""
+    out = []
+    heavy = [n for n in before if not n.startswith("H")]
+    for n in heavy:
+        if n in BACKBONE_CAP and before[n] != after[n]:
+            out.append(("backbone-or-cap-moved", f"{n} moved {math.dist(before[n], after[n]):.4f} A"))
+    bonds = set()
+    for an, ta in res.reference.map.items():
+        if an in before and not an.startswith("H"):
+            for b in ta.bonds:
+                if b in before and not b.startswith("H"):
+                    bonds.add(tuple(sorted((an, b))))
+    nb = {}
+    for u, v in bonds:
+        nb.setdefault(u, set()).add(v)
+        nb.setdefault(v, set()).add(u)
+    pairs = {(p, "bond-length") for p in bonds}
+    for v, ns in nb.items():
+        ns = sorted(ns)
+        for i in range(len(ns)):
+            for j in range(i + 1, len(ns)):
+                if (ns[i], ns[j]) not in bonds:
+                    pairs.add(((ns[i], ns[j]), "bond-angle"))
+    for (u, v), kind in sorted(pairs):
+        d0, d1 = math.dist(before[u], before[v]), math.dist(after[u], after[v])
+        if abs(d0 - d1) > 1e-6:
+            out.append((f"{kind}-changed", f"{u}-{v} distance {d0:.5f} -> {d1:.5f}"))
+    return out
+
+
+def run_walk(db, res, script, conflicts0):
+    """Run Debump.debump_residue(res) with scripted answers. `script` = list of attempts,
+    each {"mode": none|improve|zero-conflict|zero-clear, "k": step, "conf": [names]}."""
+    state = {"attempt": -1, "call": 0}
+
+    def attempt():
+        i = state["attempt"]
+        return script[i] if 0 <= i < len(script) else {"mode": "none", "k": 1, "conf": []}
+
+    def score(residue, anglenum):
+        c = state["call"]
+        state["call"] += 1
+        if c == 0:
+            return 10.0  # bestscore of this attempt
+        a = attempt()
+        if a["mode"] == "improve" and c == a["k"]:
+            return 5.0
+        if a["mode"] == "improve2" and c in (a["k"], a["k"] + 7):
+            return 5.0 if c == a["k"] else 2.5
+        if a["mode"].startswith("zero") and c == a["k"]:
+            return 0
+        return 10.0 + 0.001 * c
+
+    def conflicts(residue, write_conflict_info=False):
+        a = attempt()
+        if a["mode"] == "zero-clear" and state["call"] <= a["k"] + 1 and state.get("inscan"):
+            return []
+        return list(a["conf"])
+
+    orig_pick = res.pick_dihedral_angle
+
+    def pick(conflict_names, oldnum=None):
+        state["attempt"] += 1
+        state["call"] = 0
+        state["inscan"] = True
+        return orig_pick(conflict_names, oldnum)
+
+    db.score_dihedral_angle = score
+    db.find_residue_conflicts = conflicts
+    res.pick_dihedral_angle = pick
+    try:
+        return db.debump_residue(res, list(conflicts0))
+    finally:
+        del db.score_dihedral_angle, db.find_residue_conflicts, res.pick_dihedral_angle
+
+
+def gen_script(rng, res, side):
+    movers = sorted({n for k in side for n in res.get_moveable_names(res.reference.dihedrals[k].split()[2])})
+    n = rng.choice([1, 2, 2, 3, 3, 4, 6, 10])
+    script = []
+    for _ in range(n):
+        mode = rng.choice(["none", "none", "improve", "improve", "improve2", "zero-conflict", "zero-clear"])
+        conf = rng.sample(movers, rng.randint(1, min(3, len(movers)))) if rng.random() < 0.9 else []
+        script.append({"mode": mode, "k": rng.choice([1, 2, 17, 35, 36, 70, 71]), "conf": conf})
+    conflicts0 = rng.sample(movers, rng.randint(1, min(3, len(movers))))
+    return script, conflicts0
+
+
+def debump_walk_case(ctx, db, res, script, conflicts0, label):
+    atoms = [a for a in res.atoms]
+    before = {a.name: (a.x, a.y, a.z) for a in atoms}
+    dih0 = list(res.dihedrals)
+    err = None
+    try:
+        run_walk(db, res, script, conflicts0)
+    except Exception as e:  # noqa
+        err = f"{type(e).__name__}: {e}"
+    after = {a.name: (a.x, a.y, a.z) for a in atoms}
+    fails = _rigid_failures(res, before, after)
+    # undo: walks are independent of each other
+    for a in atoms:
+        db.cells.remove_cell(a)
+        a.x, a.y, a.z = before[a.name]
+        db.cells.add_cell(a)
+    res.dihedrals[:] = dih0
+    case = {"walk": {"residue": str(res), "script": script, "conflicts0": conflicts0}, "label": label}
+    accepted = sum(1 for a in script if a["mode"] != "none")
+    ctx.evaluated(("walk", str(res), core.sha(script)), accepted >= 1 and len(script) >= 2 and any(before[n] != after[n] for n in before))
+    ctx.count(f"debump-walk:attempts={min(len(script), 4)}{'+' if len(script) > 4 else ''}")
+    if err:
+        ctx.count("debump-walk:exception")
+        ctx.notes.append(f"debump walk {label}: {err}")
+    seen = set()
+    for cond, detail in fails:
+        if cond in seen:
+            continue
+        seen.add(cond)
+        ctx.fail({"site": "Debump.debump_residue", "condition": cond}, f"debump history on {res} ({len(script)} scripted attempts): {detail}", case)
+    return bool(fails)
+
+
+def debump_walks(ctx, n):
+    try:
+        bm, db, residues = _walk_fixture()
+    except Exception as e:  # noqa
+        ctx.broke("correspondence-broken", "debump walk fixture (tests/data/1AJJ.pdb through setup_molecule/Debump)", f"{type(e).__name__}: {e}")
+        return
+    multi = [(r, s) for r, s in residues if len(s) >= 2]
+    for w in range(n):
+        res, side = ctx.rng.choice(multi if (multi and ctx.rng.random() < 0.8) else residues)
+        script, conflicts0 = gen_script(ctx.rng, res, side)
+        bad = debump_walk_case(ctx, db, res, script, conflicts0, f"#{w}")
+        if w == 0:
+            ctx.sample({"debump_walk": {"residue": str(res), "script": script, "conflicts0": conflicts0, "rigid": not bad}})
 
 def call_term(c, ids):
     def I(n):
@@ -351,10 +539,14 @@ def run(ctx):
         for site, n in run_["writes"].items():
             ctx.count(f"heavy-write@{site}", n)
             if site != "debump.Debump.set_dihedral_angle":
-                ctx.fail({"site": site, "condition": "write-to-input-heavy-atom"}, f"{pdb} {' '.join(extra)}: {n} coordinate writes to input heavy atoms from {site} (only Debump.set_dihedral_angle may move them)", {"pdb": pdb, "args": extra, "site": site})
+                # not by itself a violation (a writer that restores saved coordinates is harmless): the model's
+                # set of coordinate-writing operations no longer covers the code; the geometry search decides
+                if not any(b["what"].endswith(site) for b in ctx.broken):
+                    ctx.broke("correspondence-broken", f"Model.Moves coordinate writers vs the code: input heavy atoms written from {site}", f"{pdb} {' '.join(extra)}: {n} coordinate writes to input heavy atoms from {site} (the model has only Debump.set_dihedral_angle)", {"pdb": pdb, "args": extra, "site": site})
             elif noop:
                 ctx.fail({"site": site, "condition": "moved-in-noop-mode", "mode": " ".join(x for x in extra if not x.startswith("--ff"))}, f"{pdb} {' '.join(extra)}: side-chain rotation executed in a no-op mode", {"pdb": pdb, "args": extra})
         geometry_oracle(ctx, pdb, extra, noop, run_, definition)
+    debump_walks(ctx, 4000 if (ctx.thorough or not ok or corr_broken or ctx.broken) else 400)
     if seen_calls and gen_ok:
         calls = list(seen_calls.values())
         hdr = HEADER + "From PV Require Import Lib.Decimal.\nDefinition show_ids (l : list id) : string := String.concat \" \" (map (fun i => Z_to_string (Zpos i)) l).\n"
@@ -418,6 +610,15 @@ def replay(ctx, data):
         why = py_rigid_violation(definition, case["template"], mv.split(), True)
         print(f"replay: {case['template']} moved=[{mv}] ->", "FAILS: " + why if why else "passes")
         return 1 if why else 0
+    if "walk" in case:
+        bm, db, residues = _walk_fixture()
+        for res, side in residues:
+            if str(res) == case["walk"]["residue"]:
+                bad = debump_walk_case(ctx, db, res, case["walk"]["script"], case["walk"]["conflicts0"], "replay")
+                print("replay:", "FAILS" if bad else "passes", [f["what"] for f in ctx.failures][:3])
+                return 1 if bad else 0
+        print("replay: residue not found")
+        return 1
     run_ = real_run(ctx, case["pdb"], case["args"])
     before = len(ctx.failures)
     geometry_oracle(ctx, case["pdb"], case["args"], any(m in case["args"] for m in ("--clean", "--assign-only")) or ("--nodebump" in case["args"] and "--noopt" in case["args"]), run_, definition)
